@@ -4,10 +4,14 @@ property's function list verifies (an annotated function is not a proved one).  
 `inline` are bodies executed at their call sites and are exempt.  Exit 1 and a list otherwise."""
 import re, json, glob, sys
 listed = set()
+listed_by = {}
 for f in glob.glob('/verif/props/C*.json'):
-    for v in json.load(open(f))['variants']:
+    d = json.load(open(f))
+    for v in d['variants']:
         listed.update(v['functions'])
+        listed_by.setdefault(d['id'], set()).update(v['functions'])
 missing = []
+untagged = []  # (property, function): a clause tagged [Cxx] of a function that Cxx never verifies
 for f in sorted(glob.glob('/repo/**/*_verif.go', recursive=True)):
     src = open(f).read()
     pkg = re.search(r'^package (\w+)', src, re.M).group(1)
@@ -23,9 +27,24 @@ for f in sorted(glob.glob('/repo/**/*_verif.go', recursive=True)):
             continue
         if key not in listed:
             missing.append(key + '  (' + f + ')')
+        # clause tags [Cxx,...] of this contract (up to the next contract or blank line)
+        j = i + 1
+        tags = set()
+        while j < len(lines) and lines[j].startswith('//@') and not lines[j].startswith('//@ contract'):
+            for t in re.findall(r'\[((?:C\d+,?\s*)+)\]', lines[j]):
+                tags.update(x.strip() for x in t.split(','))
+            j += 1
+        for t in sorted(tags):
+            if key not in listed_by.get(t, set()):
+                untagged.append(f'{t}: {key} has a clause tagged [{t}] but is not in {t}\'s function list (the clause is never checked for {t})')
 if missing:
     print('contracts never verified by any property:')
     for m in missing:
         print('  ', m)
     sys.exit(1)
-print('audit: every contract belongs to a verified function')
+if untagged:
+    print('clauses scoped to a property that never verifies the function:')
+    for m in untagged:
+        print('  ', m)
+    sys.exit(1)
+print('audit: every contract belongs to a verified function; every clause tag names a property that verifies the function')
